@@ -344,3 +344,79 @@ Proof.
   induction evs as [|e tl IH]; intros st; cbn [never_shared never_shared_b]; [tauto|].
   rewrite Bool.andb_true_iff, <- IH. unfold no_sharing. tauto.
 Qed.
+
+(* ---- LOCKU, FREE_STATEID ------------------------------------------------------------------------- *)
+Section Unlock.
+  Variables (cfg : config) (c0 : N) (evs : list event).
+  Let st := reachable cfg c0 evs.
+
+  (* FREE_STATEID never touches a lock table (it is gated by lockCount). *)
+  Lemma free_stateid_pool : forall s c cfh sfh, st_pool (sr_st (op_free_stateid s c st cfh sfh)) = st_pool st.
+  Proof.
+    intros. unfold op_free_stateid, done. destruct (negb (s_hi s =? 0)); [reflexivity|].
+    destruct (find_lofs (s_lo s) (c_oofs c)) as [[o lf]|]; [|reflexivity].
+    destruct (negb (_ =? NFS4_OK)); [reflexivity|]. destruct (0 <? lf_count lf)%Z; [reflexivity|].
+    cbn [lofs_remove_all andb]. destruct (oofs_downgrade o (lf_share lf) m0) as [[o1 outs1] pn1].
+    destruct (lowner_dec (lf_owner lf) (c_lowners c)) as [lows1 pn2]. reflexivity.
+  Qed.
+
+  (* LOCKU: the table of the file becomes Set(table, [s,e) Unlocked by the
+     lock-owner object of the state ID); every other table is unchanged. *)
+  Lemma locku_table : forall c s off len cfh sfh o lf s0 e0,
+    find_client (c_id c) (st_clients st) = Some c ->
+    get_lofs c cfh s = (Some (o, lf), NFS4_OK) ->
+    LS.offset_length_to_start_end off len = Some (s0, e0) ->
+    let r := op_locku s off len c st cfh sfh in
+    let q := LS.mkLock s0 e0 (lf_owner lf) LS.Unlocked in
+    forall h', pool_locks h' (st_pool (sr_st r))
+               = if h' =? of_handle o then LS.set_list (LS.set (pool_locks h' (st_pool st)) q)
+                 else pool_locks h' (st_pool st).
+  Proof.
+    intros c s off len cfh sfh o lf s0 e0 Hfc Hg Ho r q h'.
+    pose proof (reachable_full_inv cfg c0 evs) as [I _]. fold st in I.
+    pose proof (reachable_pool_ok cfg c0 evs) as P. fold st in P.
+    assert (Hc : In c (st_clients st)) by (rewrite find_client_k in Hfc; eapply kfind_in; eauto).
+    destruct (get_lofs_some _ _ _ _ _ _ Hg) as [Hin [Hlive Hlf]].
+    assert (Hm : pmem (of_handle o) (st_pool st) = true).
+    { apply (live_pmem (view st) (vc c) (vo o) P); cbn; [apply in_map; exact Hc|apply in_map; exact Hin|exact Hlive]. }
+    subst r. unfold op_locku. rewrite Hg, Ho. change NFS4_OK with 0. cbn [sr_st st_pool add_panic set_pool].
+    rewrite pool_locks_set_locks, Hm. destruct (h' =? of_handle o) eqn:E; [|reflexivity].
+    apply N.eqb_eq in E. subst h'. reflexivity.
+  Qed.
+
+  Hypothesis Hvalid : Forall event_valid evs.
+  Hypothesis Hns : never_shared (init cfg c0) evs.
+
+  (* ... which, the tables being well formed, means per byte: the bytes of
+     that lock-owner in [s,e) are released, every other byte of every owner
+     keeps its lock (LockSet: set_refines_bytes); no check fires. *)
+  Lemma locku_exact : forall c s off len cfh sfh o lf s0 e0,
+    find_client (c_id c) (st_clients st) = Some c ->
+    get_lofs c cfh s = (Some (o, lf), NFS4_OK) ->
+    req_valid off len ->
+    LS.offset_length_to_start_end off len = Some (s0, e0) ->
+    let r := op_locku s off len c st cfh sfh in
+    st_panic (sr_st r) = st_panic st
+    /\ forall ow b, LSS.kind_at (pool_locks (of_handle o) (st_pool (sr_st r))) ow b
+                    = if (ow =? lf_owner lf) && (s0 <=? b) && (b <? e0) then None
+                      else LSS.kind_at (pool_locks (of_handle o) (st_pool st)) ow b.
+  Proof.
+    intros c s off len cfh sfh o lf s0 e0 Hfc Hg Hrv Ho r.
+    assert (Hc : In c (st_clients st)) by (rewrite find_client_k in Hfc; eapply kfind_in; eauto).
+    destruct (get_lofs_some _ _ _ _ _ _ Hg) as [Hin [Hlive Hlf]].
+    destruct (lockcount_checks cfg c0 evs Hvalid Hns c o lf Hc Hin Hlf) as [_ [K2 [_ K4]]]. fold st in K2, K4.
+    destruct (lockcount_exact_lemma cfg c0 evs Hvalid Hns) as [_ [_ LW]]. fold st in LW.
+    pose proof (req_valid_ok off len Hrv s0 e0 (lf_owner lf) LS.Unlocked Ho) as Hq.
+    split.
+    - subst r. unfold op_locku. rewrite Hg, Ho. change NFS4_OK with 0. cbn [sr_st st_panic add_panic].
+      set (q := LS.mkLock s0 e0 (lf_owner lf) LS.Unlocked) in *.
+      specialize (K2 q eq_refl). specialize (K4 q Hq).
+      rewrite K4. assert (E : (lf_count lf + LS.set_delta (LS.set (pool_locks (of_handle o) (st_pool st)) q) <? 0)%Z = false)
+        by (apply Z.ltb_ge; exact K2).
+      rewrite E. apply Bool.orb_false_r.
+    - intros ow b. rewrite (locku_table c s off len cfh sfh o lf s0 e0 Hfc Hg Ho), N.eqb_refl.
+      pose proof (LockSet.ProofsHist.unlock_bytes (pool_locks (of_handle o) (st_pool st)) (lf_owner lf) s0 e0 ow b
+                    (LW (of_handle o)) (proj1 Hq)) as Hb.
+      exact Hb.
+  Qed.
+End Unlock.
